@@ -34,7 +34,7 @@ def main():
         if r.returncode != 0:
             print("PATCH DOES NOT APPLY")
             return 3
-        env = dict(os.environ, VERIF_REPO=wt)
+        env = dict(os.environ, VERIF_REPO=wt, VERIF_EVIDENCE_DIR="/var/tmp/verif-scratch-evidence", VERIF_REPLAY_DIR="/var/tmp/verif-scratch-replays")
         shutil.copy("/repo/whatshap/_version.py", os.path.join(wt, "whatshap", "_version.py"))
         if mode in ("tests", "both"):
             out = subprocess.run(["/venv/bin/python", "-m", "mc.build"], cwd=VERIF, env=env, capture_output=True, text=True)
